@@ -59,4 +59,153 @@ def scalarSet (E : Env) (k : Kind) : MemberSet SState := fun x =>
   | .ok r => .ok (r.st, r.flag)
   | .error e => .error e
 
+/-! ## members whose `set()` RAISES (n3)
+
+A `Constrained` / `Enum` member whose `valid_value` raises (e.g. `lambda el, v: v % 2` on `None`: TypeError)
+makes `member.set(part)` raise out of `Scalar.set` (`self.value = self.adapt(obj)` never completes, so the
+member KEEPS its value and text).  What the code then does:
+
+    def explode(self, value):
+        try:
+            value = Date.adapt(self, value)
+            for attrib, child_schema in zip(self.used, self.field_schema):
+                self[child_schema.name].set(getattr(value, attrib))
+        except (AdaptationError, TypeError):            # a TypeError of a MEMBER lands here too
+            for child_schema in self.field_schema:
+                self[child_schema.name].set(None)       # … and may raise again: leaves `explode`
+
+    def set(self, value):                               # Compound.set
+        try: res = self.explode(value); … return True
+        except Exception: return False                  # swallows whatever left `explode`
+
+So the members set before the raising one STAY set, and the call returns False. -/
+
+/-- how an exception that leaves a member's `set()` is treated further up -/
+inductive MErr
+  | typeError          -- TypeError: caught by `explode`'s own `except (AdaptationError, TypeError)`
+  | other              -- any other `Exception` (KeyError, ZeroDivisionError, …): caught by `Compound.set` only
+  | model (r : Raise)  -- an error of the scalar model itself (int→str digit limit, table miss): propagated, as before
+  deriving DecidableEq, Repr, Inhabited
+
+/-- a member as a table that may raise; a member that raises keeps its state -/
+abbrev MemberSetX (M : Type) := Native → Except MErr (M × Bool)
+
+/-- one `for … : self[name].set(part)` loop: the members as the loop leaves them, and what ended it early -/
+def loopX : List (MemberSetX M) → List Native → List M → List M × Option MErr
+  | f :: fs, p :: ps, o :: olds =>
+    match f p with
+    | .error e => (o :: olds, some e)
+    | .ok (m, _) => let r := loopX fs ps olds; (m :: r.1, r.2)
+  | _, _, olds => (olds, none)
+
+/-- `DateYYYYMMDD.explode` after `Date.adapt`: `parts = some [y, m, d]` (adapted) or `none` (AdaptationError) -/
+def explodeX (fs : List (MemberSetX M)) (parts : Option (List Native)) (olds : List M) : List M × Option MErr :=
+  match parts with
+  | some ps =>
+    let r := loopX fs ps olds
+    match r.2 with
+    | some .typeError => loopX fs (olds.map fun _ => Native.none) r.1     -- the `except` branch, on the members as they are NOW
+    | _ => r
+  | none => loopX fs (olds.map fun _ => Native.none) olds
+
+/-- `Compound.set` around it: True when `explode` completed, False when anything was swallowed -/
+def compoundSetX (fs : List (MemberSetX M)) (parts : Option (List Native)) (olds : List M) : Except Raise (List M × Bool) :=
+  let r := explodeX fs parts olds
+  match r.2 with
+  | none => .ok (r.1, true)
+  | some (.model e) => .error e
+  | some _ => .ok (r.1, false)
+
+/-- counter-model: a `Compound.set` that does NOT swallow (the exception of `explode` leaves `set()`) -/
+def compoundSetNoSwallow (fs : List (MemberSetX M)) (parts : Option (List Native)) (olds : List M) : Except MErr (List M × Bool) :=
+  let r := explodeX fs parts olds
+  match r.2 with
+  | none => .ok (r.1, true)
+  | some e => .error e
+
+/-- the members `0 … k-1` hold what their own `set(part)` leaves, the members from `k` on are untouched -/
+def SetUpTo (fs : List (MemberSetX M)) (ps : List Native) (olds ms : List M) (k : Nat) : Prop :=
+  ms.length = olds.length ∧
+  (∀ i, i < k → ∃ f p m b, fs[i]? = some f ∧ ps[i]? = some p ∧ f p = .ok (m, b) ∧ ms[i]? = some m) ∧
+  (∀ i, k ≤ i → ms[i]? = olds[i]?)
+
+/-! ### the date model with raising members -/
+
+/-- when the member's `valid_value` raises: on the ADAPTED value of the child type (`None` passes every child
+    `adapt`), before anything is assigned -/
+structure RaiseRule where
+  onNone : Option MErr := none
+  onInts : List Int := []
+  err : MErr := .typeError
+  deriving Repr, Inhabited
+
+def RaiseRule.fires (r : RaiseRule) : Native → Option MErr
+  | .none => r.onNone
+  | .int n => if r.onInts.contains n then some r.err else none
+  | _ => none
+
+/-- `member.set(x)` of a member of kind `k` whose `valid_value` raises as `r` says (only a Constrained / Enum
+    has a `valid_value`): `Constrained.adapt` = child `adapt`, THEN `valid_value(self, adapted)` -/
+def memberSetX (E : Env) (k : Kind) (r : RaiseRule) (x : Native) : Except MErr (SState × Bool) :=
+  let plain : Except MErr (SState × Bool) := match setScalar E k x with
+    | .ok res => .ok (res.st, res.flag)
+    | .error e => .error (.model e)
+  match k with
+  | .constrained child _ =>
+    match adapt E child x with
+    | .ok (some v) => (match r.fires v with | some e => .error e | none => plain)
+    | _ => plain
+  | _ => plain
+
+structure DateCfgX extends DateCfg where
+  ry : RaiseRule := {}
+  rm : RaiseRule := {}
+  rd : RaiseRule := {}
+
+def DateCfgX.tables (E : Env) (c : DateCfgX) : List (MemberSetX SState) :=
+  [memberSetX E c.ky c.ry, memberSetX E c.km c.rm, memberSetX E c.kd c.rd]
+
+def merr : MErr → Flatland.C04.CRaise
+  | .model e => .scalar e
+  | .typeError => .typeError
+  | .other => .keyError
+
+def ofList3 (s : DateState) : List SState → DateState
+  | [y, m, d] => ⟨y, m, d⟩
+  | _ => s
+
+/-- one operation of a DateYYYYMMDD whose members may raise.  Whole-element `set(x)`: `Date.adapt`, the loop,
+    the fallback, `Compound.set`'s `except Exception`; a member-level `set` or `set_flat` that raises DOES raise
+    (nothing swallows it there). -/
+def _root_.Flatland.C18.DateState.stepX (E : Env) (c : DateCfgX) (s : DateState) : DateOp → Except Flatland.C04.CRaise (DateState × Option Bool)
+  | .set x =>
+    match adapt E (.date true) x with
+    | .error r => .error (.scalar r)
+    | .ok (some .none) => .ok (s, some false)       -- `getattr(None, 'year')`: AttributeError, swallowed, nothing touched
+    | .ok ov =>
+      let parts : Option (List Native) := match ov with
+        | some (.date y m d) => some [.int y, .int m, .int d]
+        | some (.datetime y m d _ _ _ _) => some [.int y, .int m, .int d]
+        | _ => none
+      match compoundSetX (c.tables E) parts [s.y, s.m, s.d] with
+      | .error e => .error (.scalar e)
+      | .ok (ms, flag) => .ok (ofList3 s ms, some flag)
+  | .member i x =>
+    let k := if i = 0 then c.ky else if i = 1 then c.km else c.kd
+    let r := if i = 0 then c.ry else if i = 1 then c.rm else c.rd
+    match memberSetX E k r x with
+    | .error e => .error (merr e)
+    | .ok (st, flag) => .ok ((if i = 0 then { s with y := st } else if i = 1 then { s with m := st } else { s with d := st }),
+                             some flag)
+  | .setFlat pairs =>
+    let one (k : Kind) (r : RaiseRule) (name : Str) (st : SState) : Except MErr SState :=
+      match pairs.find? (fun p => p.1 == name) with
+      | some p => (match memberSetX E k r (.str p.2) with | .ok q => .ok q.1 | .error e => .error e)
+      | none => .ok st
+    match one c.ky c.ry c.ny s.y, one c.km c.rm c.nm s.m, one c.kd c.rd c.nd s.d with
+    | .ok y, .ok m, .ok d => .ok (⟨y, m, d⟩, none)
+    | .error e, _, _ => .error (merr e)
+    | _, .error e, _ => .error (merr e)
+    | _, _, .error e => .error (merr e)
+
 end Flatland.C18.Explode
